@@ -749,7 +749,7 @@ Proof.
   - injection H as <- _. exact Wf.
   - destruct (aget id (e_pos s)) as [o|]; [|discriminate].
     destruct (negb (po_status o =? ST_ACCEPTED)); [discriminate|].
-    destruct (po_purchaser o =? BAD_ADDR); [discriminate|].
+    destruct (negb (addr_parses (po_purchaser o))); [discriminate|].
     match type of H with match ?e with _ => _ end = _ => destruct e as [[b2 s2]|?|?] eqn:M end; try discriminate.
     apply (IH _ _ _ _ H). eapply mint_and_lock_wf; eauto.
 Qed.
@@ -768,7 +768,7 @@ Proof.
   - injection H as <- _. reflexivity.
   - destruct (aget id (e_pos s)) as [o|]; [|discriminate].
     destruct (negb (po_status o =? ST_ACCEPTED)); [discriminate|].
-    destruct (po_purchaser o =? BAD_ADDR); [discriminate|].
+    destruct (negb (addr_parses (po_purchaser o))); [discriminate|].
     match type of H with match ?e with _ => _ end = _ => destruct e as [[b2 s2]|?|?] eqn:M end; try discriminate.
     rewrite (IH _ _ _ _ H d). eapply mint_and_lock_gap; eauto.
 Qed.
@@ -962,8 +962,9 @@ Proof.
     + unfold DEC_ONE. lia.
     + vm_compute. discriminate.
   - unfold params_ok, ex_g_of; cbn [a_ent a_wrk a_bcn a_str ent_genesis e_params r_params ex_reg s_valfee].
-    repeat split; try (vm_compute; first [reflexivity | discriminate]).
-    + intros s [<-|[]]. discriminate.
+    assert (S7 : forall s : Z, In s [7] -> s <> BAD_ADDR /\ s <> EMPTY_ADDR)
+      by (intros s [<-|[]]; split; discriminate).
+    repeat split; try (vm_compute; first [reflexivity | discriminate]); match goal with I : In _ _ |- _ => apply (S7 _ I) end.
   - intros d. unfold ex_g_of, total_balance, supply_of. destruct d; cbn; lia.
   - intros g [].
 Qed.
